@@ -70,7 +70,7 @@ PROPS["C06"] = {
     "level": "exploration",
     "rule": "case = one seeded call script (20-120 calls quick, 40-300 thorough) on one handle: read/read_exact/fill_buf+consume/"
             "write/write_all/seek (18 argument classes incl. i64::MIN, i64::MAX, u64::MAX)/set_len/flush/position/len, replayed "
-            "under 3 of the 10 max_buffer_size x 2 version configurations, each checked call by call against a Vec<u8>+cursor model "
+            "under 3 of the 12 max_buffer_size x 2 version configurations, each checked call by call against a Vec<u8>+cursor model "
             "(Read/Write contracts for raw calls); exact-count-only scripts must give identical traces under all configurations; "
             "fresh-handle and reopen readbacks every 10-20 calls; a quarter of the scripts run on a stream of a synthesised foreign file whose unowned bytes (rest of the final sector, free sectors) hold garbage; five shards first run the beyond-4-GiB scenario. every script is non-trivial (>= 20 calls); distinct = (script seed, initial length)",
     "assumptions": COMMON_ASSUMPTIONS + ["raw read/write/fill_buf are checked against the std Read/Write/BufRead contracts, not an exact count",
